@@ -111,7 +111,7 @@ order — appended to the queued watchers.  Nobody else is queued, nothing alrea
 theorem batched_assignment_queues_exactly_the_passing_watchers (c : Cfg) (f : Nat) (w : World) (p : Nat) (v : Int)
     (hb : w.batch = true) (hv : c.valid p v = true) (h : (run c f (.setPlain p v) w).1 ≠ .oof) :
     run c f (.setPlain p v) w =
-      (.ok, { w with vals := w.vals.set p v,
+      (.ok, { w with vals := w.vals.set p v, owned := p :: w.owned,
                      events := w.events ++ (passing w p v).map (fun _ => { name := p, old := getVal w p, new := v }),
                      queued := enqueue w.queued (passing w p v) }, []) :=
   setPlain_in_batch_exact c f w p v hb hv h
